@@ -345,7 +345,9 @@ pub fn c12(out: &mut dyn Write, tier: &str, rng: &mut Rng, st: &mut Stats) {
     let scratch = std::env::var("VERIF_SCRATCH").unwrap_or_else(|_| ".".to_string());
     for i in 0..runs {
         let text: Vec<u8> = if i % 3 == 0 {
-            let names: Vec<String> = vec!["a".into(), "b".into(), "c".into(), "d".into()];
+            // plain names, and names that are legal in the language but not as graphviz identifiers
+            let names: Vec<String> = if i % 2 == 0 { vec!["a".into(), "b".into(), "c".into(), "d".into()] }
+                else { vec!["a'".into(), "\u{e9}".into(), "x_1".into(), "\u{3b1}\u{3b2}".into(), "b''".into()] };
             let gf = { let mut g = Gen { rng, names, allow_fix: i % 6 == 0, big_consts: true, max_list: 3 }; g.gen(3, &HashMap::new()) };
             Printer { rng, noise: true }.print(&gf).into_bytes()
         } else { let k = rng.below(18); malformed(rng, k) };
@@ -372,8 +374,8 @@ pub fn c12(out: &mut dyn Write, tier: &str, rng: &mut Rng, st: &mut Stats) {
         if rng.chance(1, 3) { args.push("-f".into()); args.push(rng.pick(&["true", "F", "any", "1", "*", "T"]).to_string()); flags.push_str("-f"); }
         if rng.chance(1, 4) { args.push("-c".into()); args.push(rng.pick(&["t", "false", "a"]).to_string()); flags.push_str("-c"); }
         if rng.chance(1, 5) { args.push("-b".into()); args.push(rng.below(3).to_string()); flags.push_str("-b"); }
-        if rng.chance(1, 5) { args.push("-d".into()); args.push(format!("{}/c12_out.dot", scratch)); flags.push_str("-d"); }
-        if rng.chance(1, 5) { args.push("-p".into()); args.push(format!("{}/c12_tree.dot", scratch)); flags.push_str("-p"); }
+        if rng.chance(1, 3) { args.push("-d".into()); args.push(format!("{}/c12_out.dot", scratch)); flags.push_str("-d"); }
+        if rng.chance(1, 3) { args.push("-p".into()); args.push(format!("{}/c12_tree.dot", scratch)); flags.push_str("-p"); }
         let class = run_class(&bin, &args, &stdin_data, 10);
         let tcl = std::str::from_utf8(&text).map(classes_of).unwrap_or_default();
         let (otext, ocl) = match &ordering {
